@@ -144,6 +144,11 @@ PARTIAL_SCOPE = ["repaired during this work (fixed entries in known_findings.jso
                  "ctypes.windll at import, they cannot be imported or run here; Windows10_Output delegates to "
                  "Vt100_Output (the modelled write/write_raw); Win32Output.write goes to WriteConsoleW on a console "
                  "without VT processing; not modelled",
+                 "template interpolation (ANSI(t).format(v), ANSI(t) % v, HTML(t).format(v)): that every interpolated "
+                 "value is inert is C18's theorem (ansiFormat_inert); C10 checks its end-to-end consequence only "
+                 "(oracle kind 'tpl': hostile str and non-str values in prompt message, toolbar and printed text, "
+                 "text and byte streams: no zero-width escape that the template did not mark, no control token "
+                 "outside the renderer's repertoire)",
                  "PlainTextOutput (stdout is not a terminal) does not escape by design: printPlain_adds_nothing only",
                  "Renderer.render's prelude (alternate screen, bracketed paste, mouse, cursor key mode, cursor shape) "
                  "and CPR requests: each emitter is modelled and proved (vtCall_ok), their sequencing inside render() "
@@ -620,6 +625,8 @@ def or_print(case):
                 v.append({"signature": "print_formatted_text | ESC through the safe print path",
                           "msg": f"{case['frags']!r} -> terminal reads {seen!r}"})
     zw = [t for s, t in case["frags"] if ZWE in s]
+    if case.get("_zw") is not None:   # only these payloads were marked explicitly (template interpolation)
+        zw = list(case["_zw"])
     esc_raw = sum(p.count("\x1b") for k, p in o.pieces if k == "r")
     if text.count("\x1b") != esc_raw:
         v.append({"signature": "print_formatted_text | ESC through the safe print path",
@@ -880,6 +887,8 @@ def e2e_prompt(case):
         app = s.app
         zw = ft_zwe(case["message"]) + ft_zwe(case.get("toolbar")) + ft_zwe(case.get("rprompt")) + \
             ft_zwe(case.get("continuation")) + ft_zwe(case.get("placeholder"))
+        if case.get("_zw") is not None:   # only these payloads were marked explicitly (template interpolation)
+            zw = list(case["_zw"])
         with set_app(app):
             b = s.default_buffer
             texts = case["texts"]
@@ -1889,6 +1898,130 @@ def or_printplain(case):
     return v
 
 
+# ------------------------------------------------------------------ template interpolation, end to end
+# (that ANSI(...).format / % and HTML(...).format make every interpolated value inert is C18's theorem
+#  `ansiFormat_inert`; here its consequence is checked where C10 observes: at the terminal)
+TPL_ANSI = ["\x1b[1m{}\x1b[0m $ ", "{} > ", "\x01\x1b]133;A\x07\x02\x1b[32m{}\x1b[0m> ", "[{:>12}] ", "cwd: {} \x1b[7m{}\x1b[0m"]
+TPL_ANSI_MOD = ["\x1b[1m%s\x1b[0m $ ", "%s > ", "\x01\x1b]133;A\x07\x02%s> ", "%s:%s "]
+TPL_HTML = ["<b>{}</b> $ ", "<style fg='ansired'>{}</style> &gt; ", "{} <u>{}</u>"]
+TPL_VALUES = ["proj\x01\x1b]0;pwned\x07\x9b2J\x02dir", "\x01\x1b[2J\x02", "a\x1b[31mb", "\x9b2J", "\x07", "x\x01y",
+              "\x02\x01\x1b]52;c;QQ==\x07\x02", "\x1b]2;title\x07", "plain", "\x08\x08", "<b>&amp;\x01\x1bc\x02"]
+
+
+class _StrObj:
+    def __init__(self, t):
+        self.t = t
+
+    def __str__(self):
+        return self.t
+
+
+class _FmtObj:
+    def __init__(self, t):
+        self.t = t
+
+    def __format__(self, spec):
+        return self.t
+
+    def __str__(self):
+        return "fmtobj"
+
+
+def tpl_value(vkind, vtext):
+    import pathlib
+    if vkind == "str":
+        return vtext
+    if vkind == "strobj":
+        return _StrObj(vtext)
+    if vkind == "fmtobj":
+        return _FmtObj(vtext)
+    if vkind == "path":
+        return pathlib.PurePosixPath(vtext)
+    if vkind == "exc":
+        return ValueError(vtext)
+    if vkind == "int":
+        return len(vtext) * 37 - 5
+    if vkind == "float":
+        return len(vtext) / 7.0
+    raise ValueError(vkind)
+
+
+def tpl_build(case, value):
+    from prompt_toolkit.formatted_text import ANSI, HTML
+    t, n = case["template"], case["nfields"]
+    args = (value,) * n
+    if case["fmt"] == "ansi_format":
+        return ANSI(t).format(*args)
+    if case["fmt"] == "ansi_mod":
+        return ANSI(t) % (args if n > 1 else value)
+    return HTML(t).format(*args)
+
+
+def tpl_frags(case, value):
+    from prompt_toolkit.formatted_text import to_formatted_text
+    return [[s, t] for s, t, *_ in to_formatted_text(tpl_build(case, value))]
+
+
+def or_tpl(case):
+    """`template.format(value)` displayed / printed: nothing of the VALUE reaches the terminal raw.  The only
+    zero-width escapes that may be written raw are the ones the TEMPLATE marks itself (found by formatting a
+    harmless value)."""
+    v = []
+    try:
+        allowed = [t for s, t in tpl_frags(case, "v") if ZWE in s]
+        frags = tpl_frags(case, tpl_value(case["vkind"], case["vtext"]))
+    except Exception:
+        return v   # a template / value the formatter rejects is not displayed at all
+    site = {"ansi_format": "ANSI.format", "ansi_mod": "ANSI %", "html_format": "HTML.format"}[case["fmt"]]
+    extra = [t for s, t in frags if ZWE in s and t not in allowed]
+    if extra:
+        v.append({"signature": f"{site} | interpolated value became a zero-width escape nobody marked",
+                  "msg": f"{case['template']!r} with {case['vkind']} {case['vtext']!r} -> raw payload {extra[0]!r}"})
+    sub = {"wire": case.get("wire"), "_zw": allowed}
+    if case["surface"] == "print":
+        vv = or_print(dict(sub, kind="print", frags=frags))
+    else:
+        base = {"kind": "e2e_prompt", "message": "> ", "texts": ["ok"], "toolbar": None, "completions": [],
+                "multiline": False, "wrap": True, "rows": 10, "cols": 60, "height_known": True}
+        base[case["surface"]] = frags
+        vv = e2e_prompt(dict(base, **sub))
+    for x in vv:
+        x = dict(x, signature=f"{site} -> {x['signature']}")
+        v.append(x)
+    return v
+
+
+def gen_tpl(tier, rng):
+    quick = tier == "quick"
+    kinds = ["str", "strobj", "fmtobj", "path", "exc", "int", "float"]
+    fams = [("ansi_format", TPL_ANSI), ("ansi_mod", TPL_ANSI_MOD), ("html_format", TPL_HTML)]
+
+    def nfields(fmt, t):
+        return t.count("%s") if fmt == "ansi_mod" else t.count("{")
+
+    # exhaustive: every value kind x the three builders x the three surfaces, on the witness value
+    i = 0
+    for fmt, tpls in fams:
+        for vk in kinds:
+            for surface in ("message", "toolbar", "print"):
+                t = tpls[i % len(tpls)]
+                c = {"kind": "tpl", "fmt": fmt, "template": t, "nfields": nfields(fmt, t), "vkind": vk,
+                     "vtext": TPL_VALUES[i % 3], "surface": surface}
+                if i % 2:
+                    c["wire"] = {"enc": ["utf-8", "latin-1", "ascii"][i % 3], "errors": "surrogateescape"}
+                i += 1
+                yield c
+    for _ in range(40 if quick else 2000):
+        fmt, tpls = rng.choice(fams)
+        t = rng.choice(tpls)
+        c = {"kind": "tpl", "fmt": fmt, "template": t, "nfields": nfields(fmt, t), "vkind": rng.choice(kinds),
+             "vtext": rng.choice(TPL_VALUES) if rng.random() < 0.6 else rand_hostile(rng, rng.randrange(1, 8)),
+             "surface": rng.choice(["message", "toolbar", "print"])}
+        if rng.random() < 0.4:
+            c["wire"] = rand_wire(rng)
+        yield c
+
+
 # ------------------------------------------------------------------ dispatch
 KINDS = {
     "chars": (ml_chars, il_chars, or_chars),
@@ -1904,6 +2037,7 @@ KINDS = {
     "dumb": (ml_dumb, il_dumb, or_dumb),
     "proxy": (ml_proxy, il_proxy, or_proxy),
     "printplain": (ml_printplain, il_printplain, or_printplain),
+    "tpl": (lambda c: [], lambda c: [], or_tpl),
     "enc": (ml_enc, il_enc, or_enc),
     "encchars": (ml_encchars, il_encchars, or_encchars),
     "decode": (ml_decode, il_decode, lambda c: []),
@@ -2026,6 +2160,8 @@ def cases(tier, rng):
         yield gen_gram(rng)
     # ---- the other writers: emitters, titles, Renderer.reset/erase, dumb prompt, patch_stdout
     yield from gen_out_writers(tier, rng)
+    # ---- template interpolation (ANSI.format / ANSI % / HTML.format of hostile values), end to end
+    yield from gen_tpl(tier, rng)
     # ---- end to end
     for i in range(24 if quick else 300):
         c = gen_e2e_prompt(rng, i)
@@ -2264,6 +2400,8 @@ def case_text(case):
         return (m if isinstance(m, str) else "".join(t for _, t in m)) + "".join(d[0] for d in case["docs"])
     if k == "proxy":
         return case["text"]
+    if k == "tpl":
+        return case["vtext"]
     if k == "gram":
         return "".join(case["toks"]) + "".join(case["streams"])
     if k == "enc":
